@@ -40,6 +40,8 @@ type Program struct {
 	reqTaint     map[ssa.Value]bool
 	alwaysStatus map[*ssa.Function]bool
 	Env          []string
+	Opt          loadOptions
+	Overlay      map[string][]byte
 	bceDone      bool
 	tokCache     *tokenAnalysis
 	bce          []bceSite
@@ -47,8 +49,10 @@ type Program struct {
 }
 
 type loadOptions struct {
-	Tests  bool
-	GOARCH string
+	Tests   bool
+	GOARCH  string
+	Overlay map[string][]byte // file name -> content replacing the file on disk (normal forms, inline.go)
+	Quiet   bool              // do not print load errors (a normal form that does not type-check is simply unavailable)
 }
 
 // load type-checks ./... in repo and builds SSA for the module's packages.
@@ -75,8 +79,9 @@ func load(repo string, opt loadOptions) (*Program, error) {
 		Mode:  packages.LoadSyntax | packages.NeedModule,
 		Dir:   abs,
 		Fset:  fset,
-		Env:   filtered,
-		Tests: opt.Tests,
+		Env:     filtered,
+		Tests:   opt.Tests,
+		Overlay: opt.Overlay,
 	}
 	pkgs, err := packages.Load(cfg, "./...")
 	if err != nil {
@@ -88,7 +93,9 @@ func load(repo string, opt loadOptions) (*Program, error) {
 	nerr := 0
 	packages.Visit(pkgs, nil, func(p *packages.Package) {
 		for _, e := range p.Errors {
-			fmt.Fprintf(os.Stderr, "load error: %s: %v\n", p.PkgPath, e)
+			if !opt.Quiet {
+				fmt.Fprintf(os.Stderr, "load error: %s: %v\n", p.PkgPath, e)
+			}
 			nerr++
 		}
 	})
@@ -97,7 +104,7 @@ func load(repo string, opt loadOptions) (*Program, error) {
 	}
 	sort.Slice(pkgs, func(i, j int) bool { return pkgs[i].ID < pkgs[j].ID })
 	prog, spkgs := ssautil.Packages(pkgs, ssa.InstantiateGenerics)
-	p := &Program{Repo: abs, Fset: fset, Pkgs: pkgs, Prog: prog, byName: map[string]*ssa.Function{}, Env: filtered}
+	p := &Program{Repo: abs, Fset: fset, Pkgs: pkgs, Prog: prog, byName: map[string]*ssa.Function{}, Env: filtered, Opt: opt, Overlay: opt.Overlay}
 	for i, sp := range spkgs {
 		if sp == nil {
 			continue
